@@ -116,10 +116,10 @@ def job_core_real(t, L):
             g = [('tangential%d' % k, REq(r[k] - rn * N[k], eta * (I[k] - d * N[k]))) for k in range(L)]
             g += [('unit', REq(rdot(r, r), 1)), ('into-surface', RGoal('le', rn, 0)), ('normal-part', REq(rn * rn, kk(i)))]
             return g
-        S.check_fn(U, 'refract' + s, snell, pre_t, mode='real', timeout=tm, name='c12.refract%s.transmit' % s, bounds='unit I, unit N, eta > 0, k >= 0',
+        S.check_fn(U, 'refract' + s, lambda i, o: [g for g in snell(i, o) if g[0] != 'unit'], pre_t, mode='real', timeout=tm, name='c12.refract%s.transmit' % s, bounds='unit I, unit N, eta > 0, k >= 0',
                    mutant=lambda i, o: [('m', RGoal('ge', rdot(R(o[0]), i[1]), 0))])
-        pre_r = lambda i: [i[2][0] > 0, kk(i) < 0]
-        S.check_fn(U, 'refract' + s, lambda i, o: [('zero%d' % k, REq(o[0][k].r, 0)) for k in range(L)], pre_r, mode='real', timeout=tm, name='c12.refract%s.total-reflection' % s, bounds='all real I, N, eta > 0 with k < 0')
+        S.check_fn(U, 'refract' + s, lambda i, o: [g for g in snell(i, o) if g[0] == 'unit'], pre_t, mode='real', timeout=S.cap(150, 400), solver='qfnra', name='c12.refract%s.transmit' % s, bounds='unit I, unit N, eta > 0, k >= 0', side=False, witness=False)
+        # (k < 0 cannot be examined in real mode: the model's sqrt axiom y*y == k has no real solution; the bit-precise jobs fp_* decide that half)
         # gtx norm
         S.check_fn(U, 'length2' + s, lambda i, o: [('sum-of-squares', REq(o[0][0].r, rdot(i[0], i[0])))], mode='real', timeout=tm, bounds='all real vectors')
         S.check_fn(U, 'distance2' + s, lambda i, o: [('sum-of-squares', REq(o[0][0].r, rdot(rsub(i[0], i[1]), rsub(i[0], i[1]))))], mode='real', timeout=tm, bounds='all real vectors')
@@ -133,6 +133,130 @@ def job_core_real(t, L):
                 return g
             S.check_fn(U, 'proj' + s, pspec, lambda i: [rdot(i[1], i[1]) > 0], mode='real', timeout=tm, bounds='all real x, Normal != 0',
                        mutant=lambda i, o: [('m', REq(rdot(R(o[0]), i[1]), 0))])
+    return run
+
+# ------------------------------------------------------------------ scalar genType overloads, rounding-erased
+def job_scalar_real(t):
+    def run(S):
+        tm = S.cap(60, 200); x = lambda i, k=0: i[0][k]
+        S.check_fn(U, 's_dot_' + t, lambda i, o: [('product', REq(o[0][0].r, i[0][0] * i[0][1]))], mode='real', timeout=tm, bounds='all reals')
+        S.check_fn(U, 's_length_' + t, lambda i, o: [('abs', REq(o[0][0].r, rabs(i[0][0])))], mode='real', timeout=tm, bounds='all reals')
+        S.check_fn(U, 's_distance_' + t, lambda i, o: [('abs-difference', REq(o[0][0].r, rabs(i[0][0] - i[0][1])))], mode='real', timeout=tm, bounds='all reals')
+        S.check_fn(U, 's_length2_' + t, lambda i, o: [('square', REq(o[0][0].r, i[0][0] * i[0][0]))], mode='real', timeout=tm, bounds='all reals')
+        S.check_fn(U, 's_distance2_' + t, lambda i, o: [('square-difference', REq(o[0][0].r, (i[0][0] - i[0][1]) * (i[0][0] - i[0][1])))], mode='real', timeout=tm, bounds='all reals')
+        S.check_fn(U, 's_faceforward_' + t, lambda i, o: [('decision', REq(o[0][0].r, z3.If(i[2][0] * i[1][0] < 0, i[0][0], -i[0][0])))], mode='real', timeout=tm, bounds='all reals')
+        S.check_fn(U, 's_reflect_' + t, lambda i, o: [('formula', REq(o[0][0].r, i[0][0] - 2 * (i[1][0] * i[0][0]) * i[1][0]))], mode='real', timeout=tm, bounds='all reals')
+        def kk(i): d = i[1][0] * i[0][0]; return 1 - i[2][0] * i[2][0] * (1 - d * d)
+        # in one dimension unit I, N are +-1, so k = 1 and the refracted ray is -N
+        S.check_fn(U, 's_refract_' + t, lambda i, o: [('transmitted', REq(o[0][0].r, -i[1][0]))], lambda i: [i[0][0] * i[0][0] == 1, i[1][0] * i[1][0] == 1, i[2][0] > 0], mode='real', timeout=tm, bounds='I, N in {-1, 1}, eta > 0')
+        S.check_fn(U, 's_refract_' + t, lambda i, o: [('formula', REq((o[0][0].r - i[2][0] * i[0][0] + i[2][0] * i[1][0] * i[0][0] * i[1][0]) * (o[0][0].r - i[2][0] * i[0][0] + i[2][0] * i[1][0] * i[0][0] * i[1][0]), kk(i) * i[1][0] * i[1][0])),
+                                                      ('root-sign', RGoal('le', (o[0][0].r - i[2][0] * i[0][0] + i[2][0] * i[1][0] * i[0][0] * i[1][0]) * i[1][0], 0))],
+                   lambda i: [i[2][0] > 0, kk(i) >= 0], mode='real', timeout=tm, name='c12.s_refract_%s.general' % t, bounds='all real I, N, eta > 0 with k >= 0')
+    return run
+
+# ------------------------------------------------------------------ gtx helpers, rounding-erased
+ACOS = z3.Real('acos_of_dot_spec')
+def acos_link(dotf):
+    """acos is a function: every acos(t) evaluated by the code with t == dot(x,y) equals the specification's acos(dot(x,y))"""
+    def hyps(res):
+        d = dotf(res.ins)
+        return [z3.Implies(args[0] == d, var == ACOS) for key, (var, args) in getattr(res.ex, 'trig', {}).items() if key[0] == 'acos']
+    return hyps
+def acos_of(d):
+    import math
+    d = z3.simplify(d)
+    if z3.is_rational_value(d) or z3.is_algebraic_value(d):
+        v = float(z3val_to_fraction(d)); return z3.RealVal(repr(math.acos(max(-1.0, min(1.0, v)))))
+    return ACOS
+def pow_axioms(res):
+    """pow(x,1) = x, pow(x,2) = x*x, pow(x,3) = x*x*x, pow(x,1/n) = non-negative n-th root (x >= 0)"""
+    hy = []
+    for key, (var, args) in getattr(res.ex, 'trig', {}).items():
+        if key[0] != 'pow': continue
+        b, e = args; e = z3.simplify(e)
+        if not z3.is_rational_value(e): continue
+        n, dn = e.numerator_as_long(), e.denominator_as_long()
+        if dn == 1 and 1 <= n <= 3:
+            p = b
+            for _ in range(n - 1): p = p * b
+            hy.append(var == p)
+        elif n == 1 and 2 <= dn <= 3:
+            p = var
+            for _ in range(dn - 1): p = p * var
+            hy.append(z3.Implies(b >= 0, z3.And(var >= 0, p == b)))
+    return hy
+def job_angle(t, L):
+    s = '_v%d_%s' % (L, t)
+    def run(S):
+        tm = S.cap(90, 300)
+        unit2 = lambda i: [rdot(i[0], i[0]) == 1, rdot(i[1], i[1]) == 1]
+        S.check_fn(U, 'angle' + s, lambda i, o: [('acos-of-dot', REq(o[0][0].r, acos_of(rdot(i[0], i[1]))))], unit2, mode='real', timeout=tm, solver='qfnra' if L == 4 else 'z3', extra_hyps=acos_link(lambda i: rdot(i[0], i[1])),
+                   bounds='unit x, y; acos only as a function (congruence)', mutant=lambda i, o: [('m', REq(o[0][0].r, acos_of(rdot(i[0], i[0]))))])
+    return run
+def job_gtx3(t):
+    def run(S):
+        tm = S.cap(90, 300)
+        S.check_fn(U, 's_angle_' + t, lambda i, o: [('acos-of-product', REq(o[0][0].r, acos_of(i[0][0] * i[0][1])))], lambda i: [i[0][0] * i[0][0] == 1, i[0][1] * i[0][1] == 1], mode='real', timeout=tm,
+                   extra_hyps=acos_link(lambda i: i[0][0] * i[0][1]), bounds='x, y in {-1, 1}')
+        unit2 = lambda i: [rdot(i[0], i[0]) == 1, rdot(i[1], i[1]) == 1]
+        def oa2(i, o):
+            x, y = i[0], i[1]; A = acos_of(rdot(x, y)); cr = x[0] * y[1] - x[1] * y[0]
+            return [('signed-acos', REq(o[0][0].r, z3.If(cr > 0, A, -A)))]
+        S.check_fn(U, 'oangle2_' + t, oa2, unit2, mode='real', timeout=tm, extra_hyps=acos_link(lambda i: rdot(i[0], i[1])), bounds='unit x, y in the plane; counter-clockwise positive',
+                   mutant=lambda i, o: [('m', REq(o[0][0].r, z3.If(i[0][0] * i[1][1] - i[0][1] * i[1][0] < 0, acos_of(rdot(i[0], i[1])), -acos_of(rdot(i[0], i[1])))))])
+        def oa3(i, o):
+            x, y, ref = i; A = acos_of(rdot(x, y)); sgn = rdot(ref, rcross(x, y))
+            return [('signed-acos', REq(o[0][0].r, z3.If(sgn < 0, -A, A)))]
+        S.check_fn(U, 'oangle3_' + t, oa3, unit2, mode='real', timeout=tm, extra_hyps=acos_link(lambda i: rdot(i[0], i[1])), bounds='unit x, y; any ref; sign of dot(ref, cross(x,y))')
+        # cross, exterior and mixed product
+        def cspec(i, o):
+            a_, b_ = i; c_ = R(o[0]); c2 = R(o[1]); dt = rcross(a_, b_)
+            return [('orthogonal-to-x', REq(rdot(c_, a_), 0)), ('orthogonal-to-y', REq(rdot(c_, b_), 0))] + [('anti-commutative%d' % k, REq(c_[k], -c2[k])) for k in range(3)] + [('determinant%d' % k, REq(c_[k], dt[k])) for k in range(3)]
+        S.check_fn(U, 'cross_' + t, cspec, mode='real', timeout=tm, bounds='all real vectors', mutant=lambda i, o: [('m', REq(o[0][1].r, i[0][0] * i[1][2] - i[0][2] * i[1][0]))])
+        S.check_fn(U, 'cross2_' + t, lambda i, o: [('determinant', REq(o[0][0].r, i[0][0] * i[1][1] - i[0][1] * i[1][0])), ('anti-commutative', REq(o[0][0].r, -o[0][1].r))], mode='real', timeout=tm, bounds='all real vectors')
+        S.check_fn(U, 'mixed_' + t, lambda i, o: [('determinant', REq(o[0][0].r, rdet3(i[0], i[1], i[2]))), ('cyclic', REq(o[0][0].r, rdot(i[0], rcross(i[1], i[2]))))], mode='real', timeout=tm, bounds='all real vectors',
+                   mutant=lambda i, o: [('m', REq(o[0][0].r, rdet3(i[1], i[0], i[2])))])
+        # norms
+        def nspec(i, o):
+            a_, b_ = i; d = rsub(b_, a_); r = R(o[0])
+            return [('l1-between', REq(r[0], sum(rabs(x) for x in d))), ('l1', REq(r[1], sum(rabs(x) for x in a_))),
+                    ('l2-between-nonneg', RGoal('ge', r[2], 0)), ('l2-between-square', REq(r[2] * r[2], rdot(d, d))), ('l2-nonneg', RGoal('ge', r[3], 0)), ('l2-square', REq(r[3] * r[3], rdot(a_, a_))),
+                    ('lmax-between', REq(r[4], rmax([rabs(x) for x in d]))), ('lmax', REq(r[5], rmax([rabs(x) for x in a_])))]
+        S.check_fn(U, 'norms_' + t, nspec, mode='real', timeout=tm, bounds='all real vec3', mutant=lambda i, o: [('m', REq(o[0][5].r, rmax([rabs(x) for x in i[0][:2]])))])
+        for n in (1, 2, 3):
+            def lx(i, o, n=n):
+                a_, b_ = i[0], i[1]; r = R(o[0]); pw = lambda x: x if n == 1 else (x * x if n == 2 else x * x * x)
+                return [('between-nonneg', RGoal('ge', r[0], 0)), ('between-power', REq(pw(r[0]), sum(pw(rabs(q - p)) for p, q in zip(a_, b_)))), ('nonneg', RGoal('ge', r[1], 0)), ('power', REq(pw(r[1]), sum(pw(rabs(p)) for p in a_)))]
+            ins = [[z3.Real('a%d' % k) for k in range(3)], [z3.Real('b%d' % k) for k in range(3)], [z3.BitVecVal(n, 32)]]
+            S.check_fn(U, 'lxnorm_' + t, lx, mode='real', timeout=tm, ins=ins, extra_hyps=pow_axioms, name='c12.lxnorm_%s.depth%d' % (t, n), bounds='all real vec3, Depth = %d' % n, mandatory=(n < 3))
+        # orthonormalize(x, y): unit y
+        def ov(i, o):
+            x, y = i; r = R(o[0])
+            return [('unit', REq(rdot(r, r), 1)), ('orthogonal-to-y', REq(rdot(r, y), 0)), ('in-span', REq(rdet3(x, y, r), 0)), ('towards-x', RGoal('gt', rdot(r, x), 0))]
+        S.check_fn(U, 'ortho_v3_' + t, ov, lambda i: [rdot(i[1], i[1]) == 1, rdot(rcross(i[0], i[1]), rcross(i[0], i[1])) > 0], mode='real', timeout=tm, bounds='unit y, x not parallel to y')
+        # triangleNormal
+        def tn(i, o):
+            p1, p2, p3 = i; r = R(o[0]); e1 = rsub(p2, p1); e2 = rsub(p3, p1)
+            return [('unit', REq(rdot(r, r), 1)), ('orthogonal-to-edge12', REq(rdot(r, e1), 0)), ('orthogonal-to-edge13', REq(rdot(r, e2), 0)), ('right-handed', RGoal('gt', rdot(r, rcross(e1, e2)), 0))]
+        S.check_fn(U, 'trinormal_' + t, tn, lambda i: [rdot(rcross(rsub(i[1], i[0]), rsub(i[2], i[0])), rcross(rsub(i[1], i[0]), rsub(i[2], i[0]))) > 0], mode='real', timeout=tm, bounds='non-degenerate triangles')
+        # closestPointOnLine = a + clamp(dot(p-a, b-a)/|b-a|^2, 0, 1) (b-a)
+        for nm, L in (('closest3_', 3), ('closest2_', 2)):
+            def cp(i, o, L=L):
+                p, a_, b_ = i; ab = rsub(b_, a_); tt = rdot(rsub(p, a_), ab) / rdot(ab, ab); tc = z3.If(tt <= 0, z3.RealVal(0), z3.If(tt >= 1, z3.RealVal(1), tt))
+                return [('clamped-projection%d' % k, REq(o[0][k].r, a_[k] + tc * ab[k])) for k in range(L)]
+            S.check_fn(U, nm + t, cp, lambda i: [rdot(rsub(i[2], i[1]), rsub(i[2], i[1])) > 0], mode='real', timeout=tm, bounds='all real point, a != b',
+                       mutant=lambda i, o: [('m', REq(o[0][0].r, i[1][0] + (rdot(rsub(i[0], i[1]), rsub(i[2], i[1])) / rdot(rsub(i[2], i[1]), rsub(i[2], i[1]))) * (i[2][0] - i[1][0])))])
+    return run
+def job_ortho_m3(t):
+    def run(S):
+        tm = S.cap(150, 400)
+        def om(i, o):
+            m = [i[0][0:3], i[0][3:6], i[0][6:9]]; r = [R(o[0][0:3]), R(o[0][3:6]), R(o[0][6:9])]
+            g = [('unit%d' % k, REq(rdot(r[k], r[k]), 1)) for k in range(3)] + [('orthogonal%d%d' % (p, q), REq(rdot(r[p], r[q]), 0)) for p, q in pairs(3)]
+            g += [('col0-parallel%d%d' % (p, q), REq(r[0][p] * m[0][q], r[0][q] * m[0][p])) for p, q in pairs(3)] + [('col0-direction', RGoal('gt', rdot(r[0], m[0]), 0))]
+            g += [('col1-in-span', REq(rdet3(m[0], m[1], r[1]), 0)), ('col1-direction', RGoal('gt', rdot(r[1], m[1]), 0)), ('col2-direction', RGoal('gt', rdot(r[2], m[2]), 0))]
+            return g
+        S.check_fn(U, 'ortho_m3_' + t, om, lambda i: [rdet3(i[0][0:3], i[0][3:6], i[0][6:9]) != 0], mode='real', timeout=tm, solver='qfnra', bounds='all real matrices with linearly independent columns', mandatory=False)
     return run
 
 # ------------------------------------------------------------------ bit-precise decisions of refract / faceforward
@@ -229,18 +353,20 @@ def faceforward_fp_spec(L, w):
 def signflip_spec(L, w):
     def spec(i, o):
         d = fdot([fpof(x) for x in i[2]], [fpof(x) for x in i[1]])
-        return [('sign-flip%d' % j, canon(z3.Implies(z3.Not(z3.fpLT(d, FPV(0.0, w))), z3.Or(bits_of(o[0][j]) == (i[0][j] ^ z3.BitVecVal(1 << (w - 1), w)), is_nan(i[0][j]))))) for j in range(L)]
+        return [('sign-flip%d' % j, canon(z3.Implies(z3.Not(z3.fpLT(d, FPV(0.0, w))), fpv_of(o[0][j]) == z3.fpNeg(fpof(i[0][j]))))) for j in range(L)]
     return spec
 def job_fp(t, L):
     c, w = FT[t]; s = '_v%d_%s' % (L, t)
     def run(S):
-        tm = S.cap(90, 300)
-        S.check_fn(U, 'refract' + s, refract_fp_spec(L, w, False), knan(w), timeout=tm, name='c12.refract%s.fp' % s, bounds='all bit patterns of I, N, eta for which the documented k is not NaN',
-                   mutant=lambda i, o: [('m', z3.Implies(z3.fpLEQ(fk(i, w)[0], FPV(0.0, w)), o[0][0].bits == 0))])
-        S.check_fn(U, 'faceforward' + s, faceforward_fp_spec(L, w), timeout=tm, name='c12.faceforward%s.fp' % s, bounds='all bit patterns (NaN, inf, +-0 included)',
-                   mutant=lambda i, o: [('m', z3.If(z3.fpLEQ(fdot([fpof(x) for x in i[2]], [fpof(x) for x in i[1]]), FPV(0.0, w)), same_float(o[0][0], i[0][0]), val_eq(o[0][0].fp, z3.fpNeg(fpof(i[0][0])))))])
+        tm = S.cap(90, 300); sv = 'cvc5' if w == 64 else 'z3'      # z3 does not find models of double-precision product chains; cvc5 does
+        res = S.check_fn(U, 'refract' + s, refract_fp_spec(L, w, False), knan(w), timeout=tm, solver=sv, witness=(w == 32), name='c12.refract%s.fp' % s, bounds='all bit patterns of I, N, eta for which the documented k is not NaN',
+                         mutant=lambda i, o: [('m', z3.Implies(z3.fpLEQ(fk(i, w)[0], FPV(0.0, w)), fpv_of(o[0][0]) == FPV(0.0, w)))])
+        if w == 64 and res is not None:
+            S.prove('c12.refract%s.fp.witness' % s, z3.BoolVal(False), knan(w)(res.ins), timeout=S.cap(30, 60), solver='cvc5', kind='witness', expect='sat', mandatory=False, vars_=[x for r_ in res.ins for x in r_])
+        S.check_fn(U, 'faceforward' + s, faceforward_fp_spec(L, w), timeout=tm, solver=sv, name='c12.faceforward%s.fp' % s, bounds='all bit patterns (NaN, inf, +-0 included)',
+                   mutant=lambda i, o: [('m', z3.If(z3.fpLEQ(fdot([fpof(x) for x in i[2]], [fpof(x) for x in i[1]]), FPV(0.0, w)), fpv_of(o[0][0]) == fpof(i[0][0]), val_eq(fpv_of(o[0][0]), z3.fpNeg(fpof(i[0][0])))))])
         if L <= 2:   # vec1/vec2 unary minus is a pure sign-bit flip (vec3/vec4 compute 0 - v: value-equal, sign of a zero component differs -> C01)
-            S.check_fn(U, 'faceforward' + s, signflip_spec(L, w), timeout=tm, name='c12.faceforward%s.fp-signflip' % s, side=False, witness=False, validate=0, bounds='all bit patterns, N not NaN')
+            S.check_fn(U, 'faceforward' + s, signflip_spec(L, w), timeout=tm, solver=sv, name='c12.faceforward%s.fp-signflip' % s, side=False, witness=False, validate=0, bounds='all bit patterns (NaN payloads not compared)')
     return run
 def job_fp_scalar(t):
     c, w = FT[t]
@@ -248,7 +374,7 @@ def job_fp_scalar(t):
         tm = S.cap(90, 300)
         S.check_fn(U, 's_refract_' + t, refract_fp_spec(1, w, True), knan(w), timeout=tm, solver='cvc5', name='c12.s_refract_%s.fp' % t, known=['KF-C12-scalar-refract-nan'], bounds='all bit patterns for which the documented k is not NaN')
         S.check_fn(U, 's_faceforward_' + t, faceforward_fp_spec(1, w), timeout=tm, name='c12.s_faceforward_%s.fp' % t, bounds='all bit patterns')
-        S.check_fn(U, 's_faceforward_' + t, signflip_spec(1, w), timeout=tm, name='c12.s_faceforward_%s.fp-signflip' % t, side=False, witness=False, validate=0, bounds='all bit patterns, N not NaN')
+        S.check_fn(U, 's_faceforward_' + t, signflip_spec(1, w), timeout=tm, name='c12.s_faceforward_%s.fp-signflip' % t, side=False, witness=False, validate=0, bounds='all bit patterns (NaN payloads not compared)')
         # scalar and vec1 overloads take the same decision on the same values
         for f, hyp in (('faceforward', lambda i: []), ('refract', lambda i: knan(w)(i) + [canon(z3.fpGEQ(fk(i, w)[0], FPV(0.0, w)))])):
             ins = mkvars(U.fns['s_%s_%s' % (f, t)])
@@ -267,6 +393,8 @@ def jobs(tier):
         for L in (1, 2, 3, 4):
             J.append(('core_real_v%d_%s' % (L, t), job_core_real(t, L)))
             J.append(('fp_v%d_%s' % (L, t), job_fp(t, L)))
+            J.append(('angle_v%d_%s' % (L, t), job_angle(t, L)))
+        J += [('scalar_real_' + t, job_scalar_real(t)), ('gtx_' + t, job_gtx3(t)), ('ortho_m3_' + t, job_ortho_m3(t))]
         J.append(('fp_scalar_' + t, job_fp_scalar(t)))
     J.append(('ieee_lemmas', job_lemmas))
     return J
